@@ -1,4 +1,5 @@
 import PeliteModel.Model.Dirs
+import PeliteModel.Lemmas.IterSeq
 /-!
 Specification side of C15, written from the property statement and the PE/COFF format (not from the
 decoders): record counts, where the raw data of a debug entry lives, the CodeView NB10 / RSDS record
@@ -162,3 +163,22 @@ def entryRefsOK (img : Img) : Entry → Prop
   | .unknown none => True
 
 end Pelite.Dirs.Spec
+
+/-! ### the model's `PgoIter` in the vocabulary of the sequence specification (C18; `Lemmas/IterSeq.lean`) -/
+namespace Pelite.Dirs
+open Pelite Pelite.Pe Pelite.Seq
+
+/-- one call on the model's iterator (state = window), result in the vocabulary of the sequence specification -/
+def pgoStepOp (b : Bytes) (st : Nat × Nat) : Op → Out (Res PgoItem × (Nat × Nat))
+  | .next => pgoNext b st >>= fun r => .ok (.item r.1, r.2)
+  | .nth n => pgoNth b n st >>= fun r => .ok (.item r.1, r.2)
+  | .sizeHint => .ok (.hint (pgoSizeHint st).1 (pgoSizeHint st).2, st)
+  | .count => pgoCount b st >>= fun n => .ok (.num n, st)             -- `it.clone().count()`
+  | .clone => pgoItemsFrom b st >>= fun l => .ok (.list l, st)        -- `it = it.clone()`: same window; its items
+
+/-- the answers of a whole call history on the iterator in state `st` -/
+def pgoRunOps (b : Bytes) : Nat × Nat → List Op → Out (List (Res PgoItem))
+  | _, [] => .ok []
+  | st, o :: os => pgoStepOp b st o >>= fun r => pgoRunOps b r.2 os >>= fun rs => .ok (r.1 :: rs)
+
+end Pelite.Dirs
